@@ -1062,6 +1062,27 @@ def split_tuple_assign(modules, known, rep):
                         rep.other.append(f"tuple assignment at {rel}:{st.lineno} read element-wise")
                         i += len(new) or 1
                         continue
+                # the same with attribute targets of plain names (`self.a, self.b = (self.b, None)`): no value reads a target assigned before it
+                if isinstance(st, ast.Assign) and len(st.targets) == 1 and isinstance(st.targets[0], ast.Tuple) and isinstance(st.value, ast.Tuple) \
+                        and len(st.targets[0].elts) == len(st.value.elts) and _is_fresh(st, fn, kh) \
+                        and all(isinstance(t, ast.Attribute) and isinstance(t.value, ast.Name) for t in st.targets[0].elts) \
+                        and not any(isinstance(v, ast.Starred) for v in st.value.elts):
+                    tt = [ast.unparse(t) for t in st.targets[0].elts]
+                    safe = len(set(tt)) == len(tt)
+                    for j, v in enumerate(st.value.elts):
+                        vtxt = {ast.unparse(x) for x in ast.walk(v) if isinstance(x, ast.Attribute)}
+                        if vtxt & set(tt[:j]) or any(isinstance(x, (ast.Call, ast.Await)) for x in ast.walk(v)):
+                            safe = False
+                    if safe:
+                        new = []
+                        for t, v in zip(st.targets[0].elts, st.value.elts):
+                            a = ast.copy_location(ast.Assign([t], v, lineno=st.lineno), st)
+                            ast.fix_missing_locations(a)
+                            new.append(a)
+                        stmts[i:i + 1] = new
+                        rep.other.append(f"tuple assignment of attributes at {rel}:{st.lineno} read element-wise")
+                        i += len(new)
+                        continue
                 i += 1
 
 
@@ -1375,9 +1396,14 @@ _CLASS_NAMES: set = set()
 _NEVER_NONE_CALLS = {"int", "str", "float", "len", "bool", "bytes", "list", "dict", "set", "tuple", "repr", "abs", "sum", "frozenset", "sorted"}
 
 
+_EXC_NAMES: set = set()   # `except E as name` names of the function being processed: an exception object, never None
+
+
 def _never_none(e) -> bool:
     if isinstance(e, ast.Constant):
         return e.value is not None
+    if isinstance(e, ast.Name) and e.id in _EXC_NAMES:
+        return True
     if isinstance(e, (ast.BinOp, ast.UnaryOp, ast.Compare, ast.JoinedStr, ast.List, ast.Tuple, ast.Dict, ast.Set, ast.ListComp, ast.DictComp,
                       ast.SetComp, ast.Lambda)):
         return True
@@ -1438,6 +1464,10 @@ def thread_none_sentinels(modules, known, rep):
         kh = _known_hashes(known, rel, sc, fn)
         if kh is None:
             continue
+        _EXC_NAMES.clear()
+        hnames = [h.name for h in ast.walk(fn) if isinstance(h, ast.ExceptHandler) and h.name]
+        stored_ = {n.id for n in ast.walk(fn) if isinstance(n, ast.Name) and isinstance(n.ctx, (ast.Store, ast.Del))}
+        _EXC_NAMES.update(h for h in hnames if h not in stored_)
         changed = True
         rounds = 0
         while changed and rounds < 8:
